@@ -44,7 +44,7 @@ type optionsDesc struct {
 	VCSUrl             string            `json:"vcs_url,omitempty"`
 	WithVCS            bool              `json:"with_vcs_option"`
 	Dates              []dateOpt         `json:"date_options,omitempty"`
-	Env                *int64            `json:"SOURCE_DATE_EPOCH,omitempty"`
+	Env                *string           `json:"SOURCE_DATE_EPOCH,omitempty"`
 	Err                string            `json:"error,omitempty"`
 	Merged             map[string]string `json:"annotations_after_options,omitempty"`
 	Labels             map[string]string `json:"config_labels,omitempty"`
@@ -62,7 +62,7 @@ func cloneMap(m map[string]string) map[string]string {
 	return c
 }
 
-func optionsCase(w *gal.Writer, repoDir string, cfgAnn, cl map[string]string, times int, vcsURL string, withVCS bool, dates []dateOpt, env *int64, class string) error {
+func optionsCase(w *gal.Writer, repoDir string, cfgAnn, cl map[string]string, times int, vcsURL string, withVCS bool, dates []dateOpt, env *string, class string) error {
 	mkIC := func() types.ImageConfiguration {
 		return types.ImageConfiguration{Annotations: cloneMap(cfgAnn), VCSUrl: vcsURL, Contents: types.ImageContents{RuntimeRepositories: []string{repoDir}}}
 	}
@@ -92,7 +92,7 @@ func optionsCase(w *gal.Writer, repoDir string, cfgAnn, cl map[string]string, ti
 	}
 	desc := optionsDesc{ConfigAnnotations: cfgAnn, CmdlineAnnotations: cl, Times: times, VCSUrl: vcsURL, WithVCS: withVCS, Dates: dates, Env: env}
 	if env != nil {
-		os.Setenv("SOURCE_DATE_EPOCH", strconv.FormatInt(*env, 10))
+		os.Setenv("SOURCE_DATE_EPOCH", *env)
 	} else {
 		os.Unsetenv("SOURCE_DATE_EPOCH")
 	}
@@ -120,7 +120,7 @@ func optionsCase(w *gal.Writer, repoDir string, cfgAnn, cl map[string]string, ti
 	}()
 	// NewOptions "evaluates the build.Options in the same way as New()" (without the environment)
 	o2, ic2, err2 := build.NewOptions(mkOpts(mkIC())...)
-	if (err2 != nil) != (berr != nil) {
+	if env == nil && (err2 != nil) != (berr != nil) {
 		implViolation("options-new-and-newoptions-disagree", map[string]any{"desc": desc, "new": fmt.Sprint(berr), "newoptions": fmt.Sprint(err2)})
 	}
 	if berr == nil && err2 == nil {
@@ -129,7 +129,12 @@ func optionsCase(w *gal.Writer, repoDir string, cfgAnn, cl map[string]string, ti
 		}
 	}
 	labels, manAnn, idxAnn := map[string]string{}, map[string]string{}, map[string]string{}
-	if berr == nil {
+	// outside the serialisable range BuildImageFromLayers fails (stage config covers that): the emitters are not run
+	emit := berr == nil && date.Unix() >= -62167219200 && date.Unix() <= 253402300799
+	if berr == nil && !emit {
+		icOut.Annotations = cloneMap(icOut.Annotations)
+	}
+	if emit {
 		ls, err := mkLayers("opt", 1, true)
 		if err != nil {
 			return err
@@ -172,7 +177,7 @@ func optionsCase(w *gal.Writer, repoDir string, cfgAnn, cl map[string]string, ti
 		idxAnn = im.Annotations
 		desc.Merged, desc.Labels, desc.IndexAnn = merged, labels, idxAnn
 		icOut.Annotations = merged
-	} else {
+	} else if berr != nil {
 		desc.Err = berr.Error()
 	}
 	ds := make([]string, len(dates))
@@ -188,7 +193,7 @@ func optionsCase(w *gal.Writer, repoDir string, cfgAnn, cl map[string]string, ti
 	}
 	envT := "None"
 	if env != nil {
-		envT = "(Some " + gal.Z(*env) + ")"
+		envT = "(Some " + gal.Str(*env) + ")"
 	}
 	icIn := types.ImageConfiguration{Annotations: cfgAnn, VCSUrl: vcsURL}
 	term := fmt.Sprintf("{| op_ic := %s; op_cl := %s; op_times := %s; op_dates := %s; op_env := %s; oo_err := %s; oo_annotations := %s; oo_vcs := %s; oo_date := %s; oo_labels := %s; oo_manifest := %s; oo_index := %s |}",
@@ -198,6 +203,10 @@ func optionsCase(w *gal.Writer, repoDir string, cfgAnn, cl map[string]string, ti
 	return nil
 }
 
+var envTexts = []string{"12345", "0", "+5", "-1", "-0", "00012", " 5", "5 ", "5\n", "", " ", "  \t\n", "\v\f\r", "\u00a0", "\u0085 \u2003\u3000", "\u1680\u2028\u2029\u202f\u205f\u200a",
+	"\u200b", "\u00a05", "1_000", "0x10", "1e3", "1.5", "+", "-", "--1", "+-1", "１２", "٣", "9223372036854775807", "9223372036854775808",
+	"-9223372036854775808", "-9223372036854775809", "253402300799", "253402300800", "-62167219200", "-62167219201", "99999999999999999999", "\xff", "\xc2"}
+
 func optionsStage(dir string, seed uint64, tier string) error {
 	w := &gal.Writer{Dir: dir, Require: "From Apko Require Import Corr.C12.", Type: "options_case", Check: "check_options", Shard: 300}
 	repoDir, err := os.MkdirTemp("", "c12-options-repo-")
@@ -205,7 +214,7 @@ func optionsStage(dir string, seed uint64, tier string) error {
 		return err
 	}
 	defer os.RemoveAll(repoDir)
-	i64 := func(v int64) *int64 { return &v }
+	str := func(v string) *string { return &v }
 	both := map[string]string{"org.opencontainers.image.vendor": "from-config-file", "org.opencontainers.image.title": "demo"}
 	cmd := map[string]string{"org.opencontainers.image.vendor": "from-command-line", "org.opencontainers.image.licenses": "Apache-2.0"}
 	owned := map[string]string{"org.opencontainers.image.created": "cli-created", "org.opencontainers.image.source": "cli-source", "org.opencontainers.image.revision": "cli-rev", "k": "cli"}
@@ -244,8 +253,17 @@ func optionsStage(dir string, seed uint64, tier string) error {
 		{{Kind: "epoch", Sec: -1}}, {{Kind: "epoch", Sec: 253402300799}}, {{Kind: "text", Text: "0000-01-01T00:00:00Z"}},
 	}
 	for _, ds := range dateSets {
-		for _, env := range []*int64{nil, i64(12345), i64(0)} {
+		for _, env := range []*string{nil, str("12345"), str("0"), str("  ")} {
 			if err := optionsCase(w, repoDir, both, cmd, 1+len(ds), "https://x/y@rev", false, ds, env, "dates"); err != nil {
+				return err
+			}
+		}
+	}
+	// SOURCE_DATE_EPOCH as text: signs, blanks around (ParseInt sees the untrimmed text), white space only (ignored),
+	// int64 limits, other bases and notations, non-ASCII digits and spaces
+	for _, v := range envTexts {
+		for _, ds := range [][]dateOpt{nil, {{Kind: "text", Text: "2020-02-29T12:00:00Z"}}} {
+			if err := optionsCase(w, repoDir, both, cmd, 1, "", false, ds, str(v), "source-date-epoch-text"); err != nil {
 				return err
 			}
 		}
@@ -281,9 +299,12 @@ func optionsStage(dir string, seed uint64, tier string) error {
 				ds = append(ds, dateOpt{Kind: "epoch", Sec: int64(r.Intn(2000000000))})
 			}
 		}
-		var env *int64
-		if r.Chance(1, 4) {
-			env = i64(int64(r.Intn(2000000000)))
+		var env *string
+		if r.Chance(1, 3) {
+			env = str(strconv.Itoa(r.Intn(2000000000)))
+			if r.Chance(1, 4) {
+				env = str(gal.Pick(r, envTexts))
+			}
 		}
 		if err := optionsCase(w, repoDir, genMap(), genMap(), r.Intn(4), gal.Pick(r, []string{"", "https://x/y", "https://x/y@abc"}), r.Bool(), ds, env, "random"); err != nil {
 			return err
